@@ -1109,6 +1109,11 @@ fn corpus() -> Vec<(&'static str, &'static str, &'static str)> {
         ("valid", "corpus:list_coercion", "directive @d(x: [[Int]], y: [Int!]!, z: In) on OBJECT\ninput In { a: [In!], b: Float = 1 }\ntype Query @d(x: 1, y: [1, 2], z: {a: {a: [], b: 2}}) { a: Int }\n"),
         ("directive_args", "corpus:nested_errors", "directive @d(z: In!) on OBJECT\nenum E { A }\ninput In { a: [In!], e: E!, r: Int! }\ntype Query @d(z: {a: [{e: B, r: \"x\"}], e: A, q: 1}) { a: Int }\n"),
         ("x_int_out_of_range", "corpus:int_range", "directive @d(x: Int) on OBJECT\ntype Query @d(x: 2147483648) { a: Int }\n"),
+        // appended after the witnesses above (coq/C05/Witness.v was printed from the cases above, keep their order)
+        ("x_dup_dirarg_in_app", "corpus:dup_arg_shadows_ill_typed", "directive @d(x: Int) on OBJECT\ntype Query @d(x: 1, x: \"s\") { a: Int }\n"),
+        ("valid", "corpus:interfaces", "interface A { f(a: Int): [A] }\ninterface B implements A { f(a: Int, b: String): [B!] g: U }\ntype Query implements B & A { f(a: Int, b: String, c: ID = 1): [Query!]! g: Query }\nunion U = Query\n"),
+        ("iface_field_type", "corpus:nullable_for_nonnull", "interface A { f: Int! }\ntype Query implements A { f: Int }\n"),
+        ("valid", "corpus:all_locations", "directive @y(n: Int) repeatable on SCHEMA | SCALAR | OBJECT | FIELD_DEFINITION | ARGUMENT_DEFINITION | INTERFACE | UNION | ENUM | ENUM_VALUE | INPUT_OBJECT | INPUT_FIELD_DEFINITION\ndirective @x(a: E = V, i: In = {r: 1} @y) repeatable on SCHEMA | SCALAR | OBJECT | FIELD_DEFINITION | ARGUMENT_DEFINITION | INTERFACE | UNION | ENUM | ENUM_VALUE | INPUT_OBJECT | INPUT_FIELD_DEFINITION\nenum E @y { V @y @deprecated }\ninput In @y { r: Int! @y, o: [In] @y(n: 2) }\nscalar S @x @specifiedBy(url: \"u\")\ninterface I @x { f(a: Int @x): S @x }\ntype Query implements I @x @x(a: V, i: {r: 2, o: [{r: 3}]}) { f(a: Int @x @deprecated): S @x }\nunion U @x = Query\nschema @x { query: Query }\n"),
     ]
 }
 
